@@ -451,37 +451,6 @@ func (w *world) subActor(ss *subSpec, closeWG, readWG *sync.WaitGroup) {
 	}
 	close(w.subscribed[ss.ID])
 	var once sync.Once
-	doClose := func() {
-		once.Do(func() {
-			defer closeWG.Done()
-			w.structMu.RLock()
-			defer w.structMu.RUnlock()
-			sl.CloseCall = w.tick()
-			if w.call(kSubClose, func() { sub.Close() }) {
-				sl.CloseRet = w.tick()
-			}
-		})
-	}
-	self := ss.CloseMode == closeFinalSelf || ss.CloseMode == closeEarlySelf
-	early := ss.CloseMode == closeEarlySelf || ss.CloseMode == closeEarlyOther
-	if ss.CloseMode == closeTimed {
-		go func() { w.waitEmitted(ss.CloseAt); doClose() }()
-	}
-	issued := false
-	trigger := func() {
-		if issued {
-			return
-		}
-		issued = true
-		if self {
-			doClose()
-		} else {
-			go doClose()
-		}
-	}
-	if early && ss.K == 0 {
-		trigger()
-	}
 	ch := sub.Out()
 	seen, reads := 0, 0
 	record := func(v any) {
@@ -495,6 +464,56 @@ func (w *world) subActor(ss *subSpec, closeWG, readWG *sync.WaitGroup) {
 				sl.SawAllAt = w.tick()
 			}
 		}
+	}
+	doClose := func(reader bool) {
+		once.Do(func() {
+			defer closeWG.Done()
+			if reader {
+				// The reader itself closes. It must not stop reading while it waits for the harness'
+				// own structure lock (an emit blocked on this subscription could be what the lock's
+				// holder waits for): keep consuming until the lock is granted, then call Close.
+				for i := 0; !w.structMu.TryRLock(); i++ {
+					select {
+					case v, ok := <-ch:
+						if ok {
+							record(v)
+						}
+					default:
+						pause(i)
+					}
+					if w.dead.Load() {
+						return
+					}
+				}
+			} else {
+				w.structMu.RLock()
+			}
+			defer w.structMu.RUnlock()
+			sl.CloseCall = w.tick()
+			if w.call(kSubClose, func() { sub.Close() }) {
+				sl.CloseRet = w.tick()
+			}
+		})
+	}
+	self := ss.CloseMode == closeFinalSelf || ss.CloseMode == closeEarlySelf
+	early := ss.CloseMode == closeEarlySelf || ss.CloseMode == closeEarlyOther
+	if ss.CloseMode == closeTimed {
+		go func() { w.waitEmitted(ss.CloseAt); doClose(false) }()
+	}
+	issued := false
+	trigger := func() {
+		if issued {
+			return
+		}
+		issued = true
+		if self {
+			doClose(true)
+		} else {
+			go doClose(false)
+		}
+	}
+	if early && ss.K == 0 {
+		trigger()
 	}
 	for {
 		full := cap(ch) > 0 && len(ch) == cap(ch)
